@@ -56,7 +56,7 @@ TRUSTED = [
 ]
 RULE = (
     "table generator (2-7 columns of 12 type tokens, nullability, server defaults, rowid/named/composite/text/no PK, named+unnamed "
-    "UNIQUE/CHECK/FK incl. self-referential, plain+unique indexes, long table name; 35% of the tables have Boolean / Enum columns whose "
+    "UNIQUE/CHECK/FK incl. self-referential, plain+unique indexes, partial indexes (plain and unique, `WHERE` predicate; compared through the stored CREATE INDEX text), long table name; 35% of the tables have Boolean / Enum columns whose "
     "schema type carries a named CHECK (create_constraint=True, name=...)) x row generator (NULL, quotes, Unicode, "
     "big ints, floats, blobs, off-type values) x 1-4 batch ops (add/drop/alter column incl. rename/type/nullable/default, "
     "insert_before/after, add/drop unique/check/fk/pk, create/drop index; autogenerate-style alter_column / drop_column calls passing "
@@ -67,7 +67,7 @@ RULE = (
 )
 ASSUMPTIONS = [
     "SQLite only (pysqlite legacy transaction control); PRAGMA foreign_keys off (SQLite default)",
-    "not generated: partial_reordering, table_args/table_kwargs, copy_from tables whose Boolean/Enum *type object* generates the CHECK "
+    "not generated: a batch that drops every original column (SQLAlchemy raises KeyError compiling the empty INSERT..SELECT), partial_reordering, table_args/table_kwargs, copy_from tables whose Boolean/Enum *type object* generates the CHECK "
     "(type-bound constraints; copy_from tables carry the same CHECK as an explicit named CheckConstraint), functional indexes, schemas, "
     "identifiers that need quoting (C14's subject)",
 ]
@@ -138,6 +138,7 @@ def one(ctx, case, pending):
     for o in case["ops"]:
         ctx.hist("op", o["op"])
     ctx.hist("recreated", "createTmp" in r["stmts"])
+    ctx.hist("partial_indexes", sum(1 for i in case["table"]["indexes"] if i.get("where")))
     if applicable(r) and r["before"]["orig"]["rows"]:
         ctx.nontrivial(shape_key(case))
     pending.append((case, r))
